@@ -3,6 +3,7 @@
 from __future__ import annotations
 
 import ast
+import copy
 import re
 from typing import Any, Callable, Dict, Iterable, Iterator, List, Optional, Sequence, Set, Tuple
 
@@ -677,6 +678,66 @@ def param_by_annotation(func: FuncInfo, *fragments: str, exact: bool = False) ->
     return None
 
 
+def _expand_conditional_assignments(node: ast.AST) -> ast.AST:
+    """``x = a if t else b`` (x a local) becomes ``if t: x = a`` / ``else: x = b`` in a copy of the function; every
+    other statement object is kept as it is (callers identify statements by identity)."""
+    def rebuild(stmts: List[ast.stmt]) -> List[ast.stmt]:
+        out: List[ast.stmt] = []
+        for stmt in stmts:
+            value = getattr(stmt, "value", None)
+            target = stmt.targets[0] if isinstance(stmt, ast.Assign) and len(stmt.targets) == 1 else stmt.target if isinstance(stmt, ast.AnnAssign) else None
+            if isinstance(value, ast.IfExp) and isinstance(target, ast.Name):
+                branches = []
+                for branch in (value.body, value.orelse):
+                    assign = ast.Assign(targets=[target], value=branch)
+                    ast.copy_location(assign, stmt)
+                    branches.append(rebuild([assign]))
+                expanded = ast.If(test=value.test, body=branches[0], orelse=branches[1])
+                ast.copy_location(expanded, stmt)
+                out.append(expanded)
+                continue
+            if isinstance(stmt, (ast.FunctionDef, ast.AsyncFunctionDef, ast.ClassDef)):
+                out.append(stmt)
+                continue
+            fields = [f for f in ("body", "orelse", "finalbody") if isinstance(getattr(stmt, f, None), list) and getattr(stmt, f) and isinstance(getattr(stmt, f)[0], ast.stmt)]
+            handlers = getattr(stmt, "handlers", None)
+            if not fields and not handlers:
+                out.append(stmt)
+                continue
+            rebuilt = {f: rebuild(getattr(stmt, f)) for f in fields}
+            new_handlers = None
+            if handlers:
+                new_handlers = []
+                for handler in handlers:
+                    body = rebuild(handler.body)
+                    if any(a is not b for a, b in zip(body, handler.body)):
+                        clone = copy.copy(handler)
+                        clone.body = body
+                        new_handlers.append(clone)
+                    else:
+                        new_handlers.append(handler)
+            changed = any(len(rebuilt[f]) != len(getattr(stmt, f)) or any(a is not b for a, b in zip(rebuilt[f], getattr(stmt, f))) for f in fields)
+            changed = changed or bool(handlers and any(a is not b for a, b in zip(new_handlers or [], handlers)))
+            if not changed:
+                out.append(stmt)
+                continue
+            clone = copy.copy(stmt)
+            for f in fields:
+                setattr(clone, f, rebuilt[f])
+            if new_handlers is not None:
+                clone.handlers = new_handlers
+            out.append(clone)
+        return out
+
+    assert isinstance(node, (ast.FunctionDef, ast.AsyncFunctionDef))
+    body = rebuild(node.body)
+    if all(a is b for a, b in zip(body, node.body)):
+        return node
+    clone = copy.copy(node)
+    clone.body = body
+    return clone
+
+
 def decision_chain_problems(func: FuncInfo, classify: Callable[[ast.AST], Optional[str]], layers: List[str],
                             result_of: Optional[Callable[[ast.stmt], Optional[ast.AST]]] = None) -> Tuple[List[str], int]:
     """A value is chosen from ``layers`` in order: layer i is used only when every earlier layer gave None, and
@@ -684,7 +745,7 @@ def decision_chain_problems(func: FuncInfo, classify: Callable[[ast.AST], Option
     its shape (re-assigned variable, early returns, conditional expression).  ``classify`` says which layer an
     expression reads; ``result_of`` picks the chosen value out of a statement (default: the returned value).
     Returns (problems, number of deciding paths)."""
-    cfg = CFG(func.node, raising=lambda n: False)
+    cfg = CFG(_expand_conditional_assignments(func.node), raising=lambda n: False)
     pick = result_of or (lambda stmt: stmt.value if isinstance(stmt, ast.Return) else None)
 
     def narrow(test: ast.AST, outcome: bool, env: Dict[str, str], known: Dict[str, str]) -> bool:
